@@ -232,6 +232,36 @@ def check_tables(exp: Expect, tables: list[dict]) -> list[tuple[str, str]]:
     return out
 
 
+def check_table_text(exp: Expect, tables: list[dict]) -> list[tuple[str, str]]:
+    """C02 for formats that document table text as delivered through the extracted tables only: every table-only
+    token occurs exactly once over all returned cells, and pieces the source separates stay separated inside a cell."""
+    out = []
+    if not exp.tables_only:
+        return out
+    counts: dict[str, int] = {}
+    glued = None
+    for idx, t in enumerate(tables):
+        for i, row in enumerate(t["grid"]):
+            for j, cell in enumerate(row):
+                if not isinstance(cell, str):
+                    continue
+                for tok in T.find(cell):
+                    counts[tok] = counts.get(tok, 0) + 1
+                if glued is None and T.glued_pairs(cell):
+                    glued = f"table {idx} cell ({i},{j}): pieces separated in the source are adjacent without white space: {cell!r}"
+    for tok in sorted(exp.tables_only):
+        n = counts.get(tok, 0)
+        if n == 0:
+            out.append(("table-text-lost", f"token {tok} ({T.CLASSES.get(tok[1], "?")}) is in no extracted table (and table text is not part of the full text of this format)"))
+            break
+        if n > 1:
+            out.append(("table-text-duplicated", f"token {tok} ({T.CLASSES.get(tok[1], "?")}) appears {n}x in the extracted tables, once in the source"))
+            break
+    if glued:
+        out.append(("table-text-glued", glued))
+    return out
+
+
 def _value_eq(want, got) -> bool:
     if isinstance(want, bool) or isinstance(got, bool):
         return isinstance(want, bool) and isinstance(got, bool) and want == got
